@@ -20,7 +20,7 @@ template<class A> static void unescape_event(Guarded&ar,const Text&in,int ps,int
 VH_DRIVER(escape){
   long want=atol(arg_value(argc,argv,"--n",g.thorough?"600000":"45000")); Rng R(g.seed); Guarded a1(1<<16),a2(1<<18),a3(1<<16);
   std::vector<int> reps={'a',' ',13,10,'%','+','0','A','f','g',1,127,255,'4','~','-'};
-  std::vector<Text> in; int L=g.thorough?4:3;
+  std::vector<Text> in; int L=g.thorough?5:3;
   for(int len=0;len<=L;++len){ std::vector<int> ix(len,0); while(true){ Text t; for(int i=0;i<len;++i) t.push_back(reps[ix[i]]); in.push_back(t); int i=len-1; while(i>=0&&++ix[i]==(int)reps.size()){ ix[i]=0; --i; } if(i<0) break; } }
   // every code point 1..255 alone and in context (after CR, before LF, after '%', inside a triplet)
   for(int c=1;c<=255;++c){ in.push_back(Text{c}); in.push_back(Text{13,c}); in.push_back(Text{c,10}); in.push_back(Text{'%',c}); in.push_back(Text{'%','4',c}); in.push_back(Text{'%',c,'1'}); in.push_back(Text{'a',c,'%','4','1',c}); in.push_back(T("%41")+Text{'%','0',c}); in.push_back(T("%20%")+Text{c,'g'}); }
